@@ -15,11 +15,11 @@ OUTSIDE = sp.OUTSIDE
 BASE_Q = dict(nbody=4, ntail=2, ncuts=2, nchunks=2, lchunk=2, errors=True, nargs=2, larg=2, npairs=2, maxoff=99999,
               readv=True, short=1)
 BASE_T = dict(nbody=8, ntail=3, ncuts=3, nchunks=3, lchunk=3, errors=True, nargs=2, larg=3, npairs=3,
-              maxoff=9999999, readv=True, short=2)
+              maxoff=99999, readv=True, short=2)
 OVER = {
-    "chunked": (dict(ntail=1), dict(ncuts=2, ntail=2)),
+    "chunked": (dict(ntail=1), dict(ncuts=2, ntail=1, lchunk=2)),
     "v_request": (dict(nbody=2, ntail=1, nargs=1, larg=2, ncuts=1, nchunks=2, lchunk=1, maxoff=999),
-                  dict(nbody=3, ntail=2, nargs=2, larg=2, ncuts=2, nchunks=2, lchunk=2, maxoff=99999)),
+                  dict(nbody=2, ntail=1, nargs=2, larg=2, ncuts=2, nchunks=2, lchunk=2, maxoff=99999)),
     "v_response": (dict(nbody=2, ntail=1, larg=1, nchunks=2, lchunk=1, short=1),
                    dict(nbody=4, ntail=2, larg=2, nchunks=2, lchunk=2, short=2)),
     "pipe": (dict(nbody=2, larg=1, short=1), dict(nbody=4, larg=2, short=3)),
